@@ -265,6 +265,6 @@ func VerifC03_unite_timed() {
 			vAssert(e.times[k]-prev >= T, "C09: a non-maximal slice (not the last) is delivered no earlier than Timeout after the previous delivery")
 		}
 	}
-	vAssert(vTickerStops() == vTickerCount(), "C19: the ticker is stopped when main returns")
+	vAssert(vTickersRunning() == 0, "C19: no ticker of the discipline is left running when main returns")
 	vReach("end")
 }
